@@ -1,8 +1,10 @@
 (** C07 -- executable model of src/mxlpy/meta/codegen_model.py (no proofs in this file).
 
     [generate] mirrors [_generate_model_code] statement by statement; the per-language templates
-    and the two facts that the proposed repairs change (emission order, copy of the cached
-    parameter dict) are a [facts] record REGENERATED from /repo's source (GenCodegenFacts.v).
+    and the facts that the repairs change (emission order, copy of the cached parameter dict;
+    proposed, both forms modelled: assignment-defined parameters dropped / emitted with the value
+    the model holds, variables without a reaction dropped / given an explicit zero) are a [facts]
+    record REGENERATED from /repo's source (GenCodegenFacts.v).
     The target is a straight-line program; [exec] is its meaning in the four target languages
     (what CPython / node / rustc / Julia do with the emitted text), including the failure
     classes the code can really produce: use of an unbound name, a scalar instead of a vector,
@@ -45,13 +47,23 @@ Inductive ds_kind := DsList | DsBare | DsSplat | DsUnknown.
 Inductive ret_kind := RetBare | RetBracket | RetUnknown.
 Record lang_facts := mkLF { lf_asg : asg_kind; lf_ds : ds_kind; lf_ret : ret_kind; lf_sized : bool }.
 Inductive order_kind := OrdDecl | OrdDep | OrdUnknown.
+(** parameters defined by an initial assignment: not emitted at all (the snapshot: only
+    get_parameter_values() is emitted) / emitted with the value the model holds for them
+    (fixes/C07-assigned-parameter-value.diff: every parameter name missing from the dict is added
+    from the cache's all_parameter_values) *)
+Inductive ia_kind := IaDropped | IaFrozen | IaUnknown.
+(** variables no reaction acts on: dropped from the returned list (the snapshot) / given an explicit
+    zero line whenever diff_eqs is not empty (fixes/C07-untouched-variable-zero.diff) *)
+Inductive ut_kind := UtDropped | UtZero | UtUnknown.
 Record facts := mkFacts {
   f_py : lang_facts; f_ts : lang_facts; f_rs : lang_facts; f_jl : lang_facts;
   f_order : order_kind;      (* derived/reactions emitted in declaration or in dependency order *)
   f_copy : bool;             (* the cached parameter dict is copied before [pop] *)
   f_shape_ok : bool;         (* every other statement of _generate_model_code is the modelled one *)
   f_stoich_ok : bool;        (* stoichiometries_to_sympy is the modelled one *)
-  f_printers_ok : bool       (* sympy_to_inline_{py,js,rust,julia} call the matching printer *)
+  f_printers_ok : bool;      (* sympy_to_inline_{py,js,rust,julia} call the matching printer *)
+  f_ia : ia_kind;            (* what happens to assignment-defined parameters *)
+  f_untouched : ut_kind      (* what happens to variables without a reaction *)
 }.
 Definition lf_of (F : facts) (L : lang) : lang_facts :=
   match L with Py => f_py F | Ts => f_ts F | Rs => f_rs F | Jl => f_jl F end.
@@ -113,6 +125,16 @@ Section Sem.
   (** get_parameter_values(): the cache's base_parameter_values (plain parameters only) *)
   Definition base_params (m : cmodel) : list (name * V) :=
     flat_map (fun e : name * (bool * V) => if fst (snd e) then [] else [(fst e, snd (snd e))]) (m_par m).
+
+  (** for name in model.get_parameter_names(): if name not in parameters: parameters[name] =
+      all_parameter_values[name]   -- the entries of [m_par] (dict keys: unique names) whose name
+      is not a key of the dict, in declaration order, with the value the model holds *)
+  Definition missing_params (m : cmodel) (d : list (name * V)) : list (name * V) :=
+    flat_map (fun e : name * (bool * V) =>
+                if existsb (N.eqb (fst e)) (map fst d) then [] else [(fst e, snd (snd e))]) (m_par m).
+
+  Definition emitted_params (F : facts) (m : cmodel) (d : list (name * V)) : list (name * V) :=
+    match f_ia F with IaFrozen => d ++ missing_params m d | _ => d end.
 
   (** for key in free_parameters: parameters.pop(key)   -- [None] = KeyError; the second
       component is the dict as the loop left it (it is the CACHED dict unless copied) *)
@@ -180,8 +202,27 @@ Section Sem.
   Definition diffs_ok (de : list (name * list (name * coef))) : bool :=
     forallb (fun e => forallb (fun t => coef_ok (snd t)) (snd e)) de.
 
+  (** if len(diff_eqs) > 0: for variable in variables: if variable not in diff_eqs:
+        diff_eqs[variable] = {}; emit "d<variable>dt = 0.0"       (only with [UtZero]) *)
+  Definition zero_vars (F : facts) (m : cmodel) (de : list (name * list (name * coef))) : list name :=
+    match f_untouched F, de with
+    | UtZero, _ :: _ => filter (fun v => negb (existsb (N.eqb v) (map fst de))) (m_var m)
+    | _, _ => []
+    end.
+
+  (** diff_eqs as the return statement sees it: an untouched variable has the empty sum *)
+  Definition full_diff (F : facts) (m : cmodel) (de : list (name * list (name * coef)))
+    : list (name * list (name * coef)) :=
+    de ++ map (fun v => (v, [])) (zero_vars F m de).
+
   Definition facts_usable (F : facts) (L : lang) : bool :=
     f_shape_ok F && f_stoich_ok F && f_printers_ok F
+    && match f_ia F with
+       | IaUnknown => false
+       | IaFrozen => f_copy F      (* the additions would otherwise go into the model's cached dict *)
+       | IaDropped => true
+       end
+    && match f_untouched F with UtUnknown => false | _ => true end
     && match f_order F with OrdUnknown => false | _ => true end
     && match lf_asg (lf_of F L) with AsgUnknown => false | _ => true end
     && match lf_ds (lf_of F L) with DsUnknown => false | _ => true end
@@ -192,14 +233,15 @@ Section Sem.
              (cached : list (name * V)) : gres :=
     let lf := lf_of F L in
     if negb (facts_usable F L) then GErrFacts else
-    match pop_all free cached with
+    match pop_all free (emitted_params F m cached) with
     | (false, _) => GErrKey
     | (true, pars) =>
       match emit_comps lf (emit_list F m order) with
       | None => GErrUntrans
       | Some comps =>
-        let de := build_diff (entries m) in
-        if negb (diffs_ok de) then GErrUntransCoef else
+        let de0 := build_diff (entries m) in
+        if negb (diffs_ok de0) then GErrUntransCoef else
+        let de := full_diff F m de0 in
         let ret_order := filter (fun v => existsb (N.eqb v) (map fst de)) (m_var m) in
         GOk (mkProg free (length (m_var m)) (m_var m)
                (map (fun e => (lhs_of lf (PN (fst e)), RConst (snd e))) pars
@@ -341,9 +383,9 @@ Section Sem.
        | _ => true
        end.
 
-  Definition exec (F : facts) (L : lang) (p : program) (t : V) (y fv : list V) : outcome :=
+  (** running the text, well-formedness aside *)
+  Definition exec_run (F : facts) (L : lang) (p : program) (t : V) (y fv : list V) : outcome :=
     let lf := lf_of F L in
-    if negb (static_ok lf L p) then RIllFormed else
     match bind_all (g_free p) fv [(PN tname, SVal t)] with
     | None => RErrArity
     | Some e0 =>
@@ -370,6 +412,13 @@ Section Sem.
         end
       end
     end.
+
+  (** a text that is not a program of the language is rejected before anything runs.  (Rust: a text
+      that is ill-typed in the sense of [static_ok] AND reads a name it never declares gets E0425
+      and/or E0308 from rustc depending on which diagnostics it suppresses; that overlap of two
+      recorded findings is not modelled -- the harness does not compare the outcome class there) *)
+  Definition exec (F : facts) (L : lang) (p : program) (t : V) (y fv : list V) : outcome :=
+    if negb (static_ok (lf_of F L) L p) then RIllFormed else exec_run F L p t y fv.
 End Sem.
 
 Arguments CStat {V} _.
